@@ -458,7 +458,7 @@ theorem adds_forStartOp : Adds c (c.cE + c.cF) forStartOp := by
       let s ← Tr.get
       let l ← currentFor
       addLine (.raw ("set \"" ++ currentForVar s ++ "=\""))
-      addLine (.label l) : BM Unit) := by
+      addLine (.clabel l) : BM Unit) := by
     refine adds_bind c ?_ (fun _ => adds_bind0 c (adds_get c) (fun _ => adds_bind0 c (adds_currentFor c) (fun _ =>
       adds_bind0 c (adds_addLine0 c _ rfl) (fun _ => adds_addLine0 c _ rfl))))
     intro s a s' h
